@@ -59,6 +59,7 @@ BinnifyClauses(e) ==
   << <<"tilesExactly", TilesExactly(lens, b, e.obs.table)>>,
      <<"makebinsTiles", TilesExactly(lens, b, e.obs.cli)>>,
      <<"parseBinsTiles", TilesExactly(lens, b, e.obs.parsed) /\ e.obs.parsed_lens = lens>>,
+     <<"parseBinsTiles:bedFileWithExtraColumn", e.obs.parsed_bed = e.obs.cli /\ e.obs.parsed_bed_lens = lens>>,
      <<"relIds", e.obs.relids = [k \in DOMAIN e.obs.cli |-> k - 1 - ChromFirst(e.obs.cli, e.obs.cli[k][1]) + e.case.relbase]>>,
      <<"drift:binnifyAsModel", e.obs.table = BinnifyTable(lens, b)>> >>
 
